@@ -129,6 +129,9 @@ def trace_family(pid, tier, work, mc, jobs, level_note, rule, extra_cov=None, wo
     return 0
 
 
+LEVELS = {"C15": "exploration"}
+
+
 def write(pid, tier, mcs, ntraces, nlines, classes, samples, rule, assumptions, t0, extra_cov, violations=0):
     cov = {
         "states": max(1, sum(m["states"] for m in mcs)),
@@ -142,7 +145,7 @@ def write(pid, tier, mcs, ntraces, nlines, classes, samples, rule, assumptions, 
     }
     if extra_cov:
         cov.update(extra_cov)
-    C.write_evidence(pid, tier, "model_checking", cov, assumptions + ASSUME_COMMON, time.time() - t0, violations)
+    C.write_evidence(pid, tier, LEVELS.get(pid, "model_checking"), cov, assumptions + ASSUME_COMMON, time.time() - t0, violations)
 
 
 # ---------------------------------------------------------------------------
